@@ -82,6 +82,16 @@ func envProbes(rep *Report, prop string, viaDriver bool) {
 	}
 	check("directly", guarded(func() string { return ask(valid) }))
 	check("through a symbolic link", guarded(func() string { return ask(link) }))
+	// "dir/link/../name" names a file in the directory the link points INTO (the kernel resolves ".." after following
+	// the link); a decoy with other data sits where a purely textual clean-up of the name would look
+	os.MkdirAll(filepath.Join(pub, "releases", "v2"), 0755)
+	os.Symlink(filepath.Join("releases", "v2"), filepath.Join(pub, "cur"))
+	real := filepath.Join(pub, "releases", "data.updog")
+	copyFile(valid, real)
+	if _, err := buildIndexFile("mem", []map[string]string{{"a": "1"}, {"a": "1"}, {"a": "1"}, {"a": "1"}, {"a": "1"}, {"a": "9"}}, filepath.Join(pub, "data.updog")); err != nil {
+		infra("build: %v", err)
+	}
+	check("as dir/link/../name", guarded(func() string { return ask(pub + "/cur/../data.updog") }))
 	if os.Geteuid() == 0 {
 		got := guarded(func() string {
 			runtime.LockOSThread() // never unlocked: the thread with the changed fsuid ends with this goroutine
